@@ -14,6 +14,15 @@ E3  ... and the recorded trace (action, thread, returned value, top/bottom/slot 
     step) is validated by TLC against the spec (ChaseLevTrace.tla), all invariants on.
 E4  random controlled schedules (uniform and PCT) of random contract-respecting programs
     (1 owner + 1..3 stealers) for Capacity 1, 2, 4.
+E5  free-running rounds (drv_chaselev --stress: real threads, no controlled scheduler, the hooks
+    are inert): one owner (random push/pop/pop_into mix, now and then steal/size/empty) against 1..3
+    spinning stealers on ChaseLevDeque<int, 1|2|4|8> objects that live across the rounds, start
+    barrier + random spin offsets, profiles "nearly empty" (last-element pop-vs-steal race), "nearly
+    full" (wrap-around, rejected pushes) and mixed; one observation record per round (what every
+    call returned, per thread in program order, + size()/empty()/a quiescent drain at the end),
+    validated by TLC against spec/chaselev/ChaseLevObs.tla (exactly once, steals increasing per
+    thread, the owner's LIFO view, observers <= capacity, quiescent accounting).  E2-E4 execute
+    everything between two hook points atomically; E5 is the engine that sees a race INSIDE a step.
 """
 import os
 
@@ -72,7 +81,22 @@ def run(ctx):
                 out.write(f.read())
     ctx.validate(SPEC, 'ChaseLevTrace.tla', 'ChaseLevTrace.cfg', alltr, WHAT, executions=execs,
                  label='cover replay + random pct0 + random pct3', timeout=1100)
+    # E5: free-running rounds (real threads, inert hooks): races INSIDE a step of the specification -----
+    stress = os.path.join(ctx.work, 'stress.ndjson')
+    rounds = 300000 if thorough else 20000
+    tot, _ = ctx.driver(exe, ['--out', stress, '--stress', rounds, '--seed', ctx.seed], WHAT,
+                        label='free-running owner vs 1..3 stealers, capacity 1,2,4,8', allow_incomplete=True,
+                        timeout=1500)
+    ctx.validate(SPEC, 'ChaseLevObs.tla', 'ChaseLevObs.cfg', stress, WHAT, executions=tot.get('completed', 0),
+                 label='free-running rounds: exactly once, steal order, owner LIFO view, quiescent accounting',
+                 timeout=1500)
+    ctx.cov['free_running_rounds'] = tot.get('executions', 0)
+    ctx.sample_trace(stress, 4)
     ctx.assumptions += [
+        'free-running rounds (E5) observe only what the public API returned, per thread in program order '
+        '(accepted pushes, popped/stolen values, size()/empty(), a quiescent drain); no order between operations '
+        'of different threads is recorded; a round that does not end within 10 s of wall clock counts as stuck; '
+        'the memory model exercised is that of the host (x86-64 TSO)',
         'TLA+ interleaving semantics are sequentially consistent: the two seq_cst fences are schedule points '
         'but have no effect in the model (weak-memory effects are C10)',
         'contract (R1): only one thread (the owner) pushes and pops; any thread steals and observes',
